@@ -14,8 +14,13 @@ use std::cell::{Cell, RefCell};
 /// One entry of the draw log
 #[derive(Debug, Clone, Copy, PartialEq, Eq)]
 pub enum DrawEvent {
-    /// `random(bound)` drew `value` from the generator
-    Draw { bound: i64, value: i64 },
+    /// `random(bound)` drew `value` from the generator identified by `generator`
+    /// (the address of the generator object: all draws of one run must come from one generator)
+    Draw {
+        bound: i64,
+        value: i64,
+        generator: usize,
+    },
     /// `resetRandom;` was executed
     Reset,
 }
@@ -79,6 +84,7 @@ impl LoggedCtx<'_> {
             d.borrow_mut().push(DrawEvent::Draw {
                 bound: self.bound,
                 value,
+                generator: self.ctx.verif_rng_id(),
             })
         });
         value
